@@ -33,7 +33,11 @@ BY_FILE={'sparse_vector':['C02','C06','C07','C08','C09','C10','C11','C15','C16',
  'support.rs':['C11']}
 ALL='--all' in sys.argv
 prefixes=[a for a in prefixes if a!='--all']
+ONLY=[x for x in os.environ.get('BENIGN_PROPS','').split(',') if x]
 def props_for(patch):
+    r=_props_for(patch)
+    return [p for p in r if p in ONLY] if ONLY else r
+def _props_for(patch):
     if ALL: return PROPS
     out=set()
     for l in open(patch):
